@@ -6,6 +6,7 @@ package main
 import (
 	"fmt"
 	"math/big"
+	"os"
 	"strings"
 
 	"cosmossdk.io/math"
@@ -275,7 +276,7 @@ func (m *MonC05) classify(op string, res TxResult, s *Snap, val, denom string, a
 	msg := res.Err + res.Panic
 	a := s.Assets[denom]
 	v := s.Vals[val]
-	big24 := new(big.Int).Exp(big.NewInt(10), big.NewInt(21), nil)
+	big24 := new(big.Int).Exp(big.NewInt(10), big.NewInt(16), nil)
 	huge := a.TotalTokens.BigInt().Cmp(big24) >= 0 || (amount != nil && amount.Cmp(big24) >= 0)
 	// zero-value-validator: validator's stake in the asset is worth 0 in 18-digit arithmetic while
 	// delegator shares >= 1 exist -> every conversion divides by zero
@@ -290,11 +291,27 @@ func (m *MonC05) classify(op string, res TxResult, s *Snap, val, denom string, a
 			return "zero-value-validator", fmt.Sprintf("%s on %s/%s panics with division by zero: the validator's stake in the asset is worth 0 (after a complete slash, or dust against a huge total) while %s delegator shares exist", op, m.R.W.Name(val), denom, S)
 		}
 	}
+	// subshare-stuck: the delegator-share total of (validator, asset) is below one share, so tokens are
+	// converted to shares 1:1 and a position holding less than one share can never cover 1 token
+	if strings.Contains(msg, "insufficient delegation shares") && v != nil && v.HasInfo {
+		S := decAmount(v.Info.TotalDelegatorShares, denom)
+		if S.IsPositive() && S.TruncateInt().IsZero() {
+			return "subshare-stuck", fmt.Sprintf("%s on %s/%s fails with %q: the validator's delegator-share total is %s (< 1), tokens are converted to shares 1:1 and the position, although worth >= 1 token, can never be undelegated", op, m.R.W.Name(val), denom, msg, S)
+		}
+	}
 	if strings.Contains(msg, "insufficient funds") && strings.Contains(msg, "spendable balance") && m.R.PoolShort {
 		return "pool-short", fmt.Sprintf("%s fails with %q: the rewards pool cannot pay the claim made on the way (consequence of the recorded C12 findings)", op, msg)
 	}
 	if huge && (strings.Contains(msg, "negative coin amount") || strings.Contains(msg, "overflow") || strings.Contains(msg, "insufficient tokens") || strings.Contains(msg, "insufficient delegation shares") || strings.Contains(msg, "division by zero")) {
-		return "precision-18dec", fmt.Sprintf("%s fails at magnitude >= 1e21 with %q: 18-digit fixed point cannot represent the share/token ratios", op, msg)
+		return "precision-18dec", fmt.Sprintf("%s fails at magnitude >= 1e16 with %q: 18-digit share/token ratios lose base-unit precision", op, msg)
+	}
+	// the validator's fraction of the asset (validator shares / share total) has fewer than six
+	// significant digits at 18 decimals: its token value is off by more than 1e-6 relatively
+	if v != nil && v.HasInfo && !a.TotalValidatorShares.IsZero() && (strings.Contains(msg, "insufficient tokens") || strings.Contains(msg, "insufficient delegation shares") || strings.Contains(msg, "negative coin amount")) {
+		frac := decAmount(v.Info.ValidatorShares, denom).Quo(a.TotalValidatorShares)
+		if frac.LT(math.LegacyMustNewDecFromStr("0.000000000001")) {
+			return "precision-18dec", fmt.Sprintf("%s fails with %q: the validator holds a fraction %s of the asset, which has too few significant digits at 18 decimals to convert between shares and tokens", op, msg, frac)
+		}
 	}
 	if strings.Contains(msg, "overflow") && m.sharePriceExploded(s, denom) {
 		return "precision-18dec", fmt.Sprintf("%s fails with %q: share/token ratio of %s exploded after take-rate drain/refill cycles", op, msg, denom)
@@ -387,10 +404,19 @@ func (m *MonC05) Probe(idx int) {
 		if !res.OK {
 			// recorded finding rounder-balance: the reported balance is floor(value + 0.01); when that rounds
 			// up, the full reported balance cannot be undelegated but balance-1 can
+			roundedUp := new(big.Rat).SetInt(bal).Cmp(s.Value(pk)) > 0
+			if (strings.Contains(res.Err, "insufficient delegation shares") || strings.Contains(res.Err, "insufficient tokens")) && bal.Cmp(big.NewInt(1)) == 0 && roundedUp {
+				rep.KnownFinding("C05", "rounder-balance", "the position (%s,%s,%s) reports a balance of 1 for an exact value of %s; undelegating 1 fails with %q and nothing smaller can be undelegated", w.Name(pk.Del), w.Name(pk.Val), pk.Denom, ratStr(s.Value(pk)), res.Err)
+				rep.Class("C05.known.rounder-balance")
+				continue
+			}
 			if (strings.Contains(res.Err, "insufficient delegation shares") || strings.Contains(res.Err, "insufficient tokens")) && bal.Cmp(big.NewInt(1)) > 0 {
 				b2ctx, _ := w.Ctx.CacheContext()
 				r1 := w.RunMsgOn(b2ctx, m.R.buildMsg(Step{K: "claim", A: a, V: vi, Den: pk.Denom}), true)
 				r2 := w.RunMsgOn(b2ctx, m.R.buildMsg(Step{K: "undelegate", A: a, V: vi, Den: pk.Denom, Amt: new(big.Int).Sub(bal, big.NewInt(1)).String()}), true)
+				if os.Getenv("VMON_DEBUG") != "" {
+					fmt.Printf("C05 retry: claim %s, undelegate(B-1) %s; value %s\n", r1, r2, ratStr(s.Value(pk)))
+				}
 				if r1.OK && r2.OK {
 					rep.KnownFinding("C05", "rounder-balance", "undelegating the full reported balance %s of (%s,%s,%s) fails with %q although balance-1 succeeds: the reported balance is the exact value %s plus 0.01 rounded down", bal, w.Name(pk.Del), w.Name(pk.Val), pk.Denom, res.Err, ratStr(s.Value(pk)))
 					rep.Class("C05.known.rounder-balance")
